@@ -301,6 +301,11 @@ fn handle_xgroup_create(storage: &Arc<StorageEngine>, db: usize, parts: &[RespFr
         _ => false,
     };
     
+    // Refuse a malformed ID before MKSTREAM creates the key
+    if id_str != "$" && id_str != "0" && StreamId::from_string(&id_str).is_none() {
+        return Ok(RespFrame::error("ERR Invalid stream ID specified as stream command argument"));
+    }
+    
     // Get or create the stream
     let stream = match storage.get(db, &key)? {
         GetResult::Found(Value::Stream(stream)) => stream,
